@@ -137,6 +137,15 @@ func run(p *rules.Prop, tier string) (code int) {
 	if p.Extra != nil {
 		extra = p.Extra()
 	}
+	if tier == "thorough" && len(r.NewViolations()) == 0 {
+		if m := rules.RunMutants(p, prog, r); m != nil {
+			if extra == nil {
+				extra = map[string]any{}
+			}
+			extra["generic_fault_enumeration"] = m
+			fmt.Printf("generic faults: tried=%v not-compiling=%v killed=%v survived=%v\n", m["faults_tried"], m["faults_not_compiling"], m["faults_killed"], m["faults_survived"])
+		}
+	}
 	expl := p.Explanation
 	if p.NotCovered != "" {
 		expl += " NOT COVERED: " + p.NotCovered
